@@ -152,7 +152,7 @@ def props_theorems(prop):
     if not os.path.exists(p):
         return []
     txt = strip_comments(open(p, encoding="utf-8").read())
-    return re.findall(r"Theorem\s+(\w+)", txt)
+    return re.findall(r"(?:Theorem|Example|Lemma|Corollary)\s+(\w+)", txt)
 
 
 def check_props(prop):
